@@ -11,6 +11,10 @@ import GmQuic.Model.Wake5
 import GmQuic.Lemmas.Wake5
 import GmQuic.Model.WakeCid
 import GmQuic.Lemmas.WakeCid
+import GmQuic.Model.WakeFlow
+import GmQuic.Lemmas.WakeFlow
+import GmQuic.Model.WakeWakers
+import GmQuic.Lemmas.WakeWakers
 import GmQuic.Lemmas.WakeAA
 /-!
 C16 — no wake-up is ever lost.  Property theorems only.
@@ -383,6 +387,71 @@ theorem cidcell_close_wakes (sched : List Cid.Op) (hs : Cid.asleep (Cid.run sche
 example : Cid.asleep (Cid.run [.waiter, .waiter]) ∧ ¬ Cid.wakePending (Cid.run [.waiter, .waiter]) ∧
     (Cid.run [.waiter, .assign, .waiter]).wpc = .c0 := by
   simp only [Cid.asleep, Cid.wakePending]; decide
+
+/-! ### 16. connection-level send flow-control credit (`ArcSendControler`) + the path's `SendWaker` bit FLOW_CONTROL:
+per critical section, ALL interleavings of the sending task (`credit` / drop of the `Credit` / `wait_for`) with any number
+of MAX_DATA frames, handshake revisions (0-RTT accepted or rejected), other paths taking and returning credit, `on_error`. -/
+
+theorem flow_no_lost_wakeup (m : Nat) (sched : List Flow.Op) :
+    let s := Flow.run m sched
+    Flow.asleep s → ¬ Flow.wakePending s → ¬ Flow.cond s := by
+  intro s hs hw hc
+  have h := Flow.run_inv m sched
+  have hw' : s.woken = false := by
+    cases hb : s.woken with
+    | false => rfl
+    | true => exact absurd hb hw
+  have h1 := (h.a hs hw').1
+  have h2 := h.b (Or.inr (Or.inr hs)) hc
+  change (Flow.run m sched).bit = false at h1
+  rw [h2] at h1; cases h1
+
+-- non-vacuity: parked at the remembered limit; a rejected-0-RTT revision to a larger limit wakes the sender,
+-- and one that arrives between the check and the park is observed (the sender does not go to sleep)
+example : Flow.asleep (Flow.run 5 [.waiter 9 9, .waiter 0 9, .waiter 9 9, .waiter 0 0, .waiter 0 0]) ∧
+    ¬ Flow.wakePending (Flow.run 5 [.waiter 9 9, .waiter 0 9, .waiter 9 9, .waiter 0 0, .waiter 0 0]) ∧
+    Flow.wakePending (Flow.run 5 [.waiter 9 9, .waiter 0 9, .waiter 9 9, .waiter 0 0, .waiter 0 0, .revise true 20]) ∧
+    (Flow.run 5 [.waiter 9 9, .waiter 0 9, .waiter 9 9, .waiter 0 0, .revise true 20, .waiter 0 0]).wpc = .w0 := by
+  simp only [Flow.asleep, Flow.wakePending]; decide
+
+/-! ### 17. `Wakers::combine_with`: register, THEN poll — per step, any number of tasks, notifier between any two steps -/
+
+theorem wakers_no_lost_wakeup (sched : List Wks.Op) (t : Nat) :
+    let s := Wks.run true sched
+    Wks.asleep s t → ¬ Wks.wakePending s t → ¬ Wks.cond s := by
+  intro s hs hw hc
+  have h := Wks.run_inv sched
+  have hw' : s.woken t = false := by
+    cases hb : s.woken t with
+    | false => rfl
+    | true => exact absurd hb hw
+  have := (h.i2 t hs hw').2.2
+  change (Wks.run true sched).ready = false at this
+  rw [hc] at this; cases this
+
+/-- dropping the `Wakers` (`Drop for WakerVec`) wakes every sleeper -/
+theorem wakers_close_wakes_all (sched : List Wks.Op) (t : Nat) (hs : Wks.asleep (Wks.run true sched) t) :
+    Wks.wakePending (Wks.step true (Wks.run true sched) .dropAll) t := by
+  have h := Wks.run_inv sched
+  cases hb : (Wks.run true sched).woken t with
+  | true => simp [Wks.wakePending, Wks.step, Wks.wakeAll, hb]
+  | false =>
+    have := (h.i2 t hs hb).1
+    simp [Wks.wakePending, Wks.step, Wks.wakeAll, this]
+
+/-- the reordering "poll, then register only if Pending" loses the notification that falls between the two steps -/
+theorem wakers_poll_then_register_fails :
+    ¬ (∀ (sched : List Wks.Op) (t : Nat),
+        Wks.asleep (Wks.run false sched) t → ¬ Wks.wakePending (Wks.run false sched) t → ¬ Wks.cond (Wks.run false sched)) := by
+  intro h
+  exact h [.start 0, .notify, .finish 0] 0 (by simp [Wks.asleep, Wks.run, Wks.step, Wks.init, Wks.inner, Wks.register, Wks.set, Wks.wakeAll])
+    (by simp [Wks.wakePending, Wks.run, Wks.step, Wks.init, Wks.inner, Wks.register, Wks.set, Wks.wakeAll])
+    (by simp [Wks.cond, Wks.run, Wks.step, Wks.init, Wks.inner, Wks.register, Wks.set, Wks.wakeAll])
+
+example : Wks.asleep (Wks.run true [.start 0, .start 1, .finish 0, .finish 1]) 0 ∧
+    Wks.asleep (Wks.run true [.start 0, .start 1, .finish 0, .finish 1]) 1 ∧
+    Wks.wakePending (Wks.run true [.start 0, .start 1, .finish 0, .notify, .finish 1]) 1 := by
+  simp [Wks.asleep, Wks.wakePending, Wks.run, Wks.step, Wks.init, Wks.inner, Wks.register, Wks.set, Wks.wakeAll]
 
 /-! ### 5. `AntiAmplifier::balance` + `SendWaker` — per atomic operation, ALL interleavings of the waiter with any
 number of concurrent `on_rcvd` / `grant` / `abort` invocations (DESIGN Appendix A shape, verbatim) -/
